@@ -243,7 +243,7 @@ func TestVerifC53(t *testing.T) {
 	rec := kit.Start(t, "C53", "diff")
 	defer rec.Finish()
 	env := rec.Env
-	n := env.Pick(240, 6000)
+	n := env.Pick(240, 2000)
 	for ci := 0; ci < n; ci++ {
 		if !env.Mine(ci) {
 			continue
